@@ -217,6 +217,13 @@ Fixpoint ok_from (cfg : config) (s : sp) (ops : list op) (obs : list obs) : bool
       match obs with
       | [] => false
       | (err, after) :: obs' =>
+          (* routes changed by somebody else in the middle of this Apply's whole-table dump: the dump is repeated after
+             them, so they are covered by the full resync this Apply is running; until it succeeds nothing is required
+             at those keys *)
+          let mkeys := flat_map (fun e => match e with (_, _, FEintrP _ muts) => map fst muts | _ => [] end) p in
+          let s := {| p_D := p_D s; p_env := p_env s; p_dirtyL := p_dirtyL s; p_covL := p_covL s; p_dirtyK := p_dirtyK s;
+                      p_covK := mkeys ++ p_covK s; p_dirtyAll := p_dirtyAll s; p_covAll := p_covAll s;
+                      p_freshq := p_freshq s; p_told := p_told s |} in
           let f := ok_foreign cfg s after in
           (* a successful Apply has certainly done any full resync that was asked for *)
           let s1 := if err then s
